@@ -23,6 +23,14 @@ open Codec Codec.Der
 
 def DOESNT_EXPIRE : Nat := Consts.c17CertDoesntExpire
 
+/-- `mapM` in `Option`, as a plain recursion -/
+def mapO {α β : Type} (f : α → Option β) : List α → Option (List β)
+  | [] => some []
+  | a :: r =>
+    match f a, mapO f r with
+    | some b, some bs => some (b :: bs)
+    | _, _ => none
+
 def OID_PUB_KEY_ECPUBKEY : List Nat := [0x2A, 0x86, 0x48, 0xCE, 0x3D, 0x02, 0x01]
 def OID_EC_TYPE_PRIME256V1 : List Nat := [0x2A, 0x86, 0x48, 0xCE, 0x3D, 0x03, 0x01, 0x07]
 def OID_ECDSA_WITH_SHA256 : List Nat := [0x2A, 0x86, 0x48, 0xCE, 0x3D, 0x04, 0x03, 0x02]
@@ -186,7 +194,8 @@ def ekuLoop : List (Except String Nat) → M Unit
   | [] => pure ()
   | it :: r => do
     let t ← get it
-    if t > 0 ∧ t ≤ EKU_ENCODING.length then
+    -- (after fix C17-cert-eku-index: `t < encoding.len()`; it used to be `<=` and index 7 panicked)
+    if t > 0 ∧ t < EKU_ENCODING.length then
       match EKU_ENCODING[t]? with
       | some oid => op (.oid oid)
       | none => fail .panic
@@ -375,7 +384,7 @@ def attrNode (a : Attr) : Option Node :=
     | none => none
   | none => none
 
-def dnNode (l : List Attr) : Option Node := (l.mapM attrNode).map seq
+def dnNode (l : List Attr) : Option Node := (mapO attrNode l).map seq
 
 def timeNode (epoch : Nat) : Option Node := (timeStr epoch).map fun p => .prim p.1 p.2
 
@@ -492,7 +501,7 @@ def parseAttr : Der → Option AttrView
   | _ => none
 
 def parseDn : Der → Option (List AttrView)
-  | .cons 0x30 l => l.mapM parseAttr
+  | .cons 0x30 l => mapO parseAttr l
   | _ => none
 
 /-- a BIT STRING of named bits → the bytes with the stripped zero bytes restored (2 bytes for key usage) -/
@@ -521,31 +530,31 @@ structure ExtView where
   ext : XExt
 deriving DecidableEq, Repr
 
-def parseExtValue (oid value : List Nat) : Option XExt :=
-  match parseDer value with
-  | none => none
-  | some d =>
-    if oid = OID_BASIC_CONSTRAINTS then
-      match d with
-      | .cons 0x30 [] => some (.basic false none)
-      | .cons 0x30 [.prim 0x01 [0xFF]] => some (.basic true none)
-      | .cons 0x30 [.prim 0x02 [p]] => some (.basic false (some p))
-      | .cons 0x30 [.prim 0x01 [0xFF], .prim 0x02 [p]] => some (.basic true (some p))
-      | _ => none
-    else if oid = OID_KEY_USAGE then (parseKeyUsage d).map .keyUsage
-    else if oid = OID_EXT_KEY_USAGE then
-      match d with
-      | .cons 0x30 l => (l.mapM parseEku).map .extKeyUsage
-      | _ => none
-    else if oid = OID_SUBJ_KEY_IDENTIFIER then
-      match d with
-      | .prim 0x04 b => some (.subjKeyId b)
-      | _ => none
-    else if oid = OID_AUTH_KEY_ID then
-      match d with
-      | .cons 0x30 [.prim 0x80 b] => some (.authKeyId b)
-      | _ => none
-    else none
+/-- the value of a known extension (the DER value inside the wrapping OCTET STRING) -/
+def extOfDer (oid : List Nat) (d : Der) : Option XExt :=
+  if oid = OID_BASIC_CONSTRAINTS then
+    match d with
+    | .cons 0x30 [] => some (.basic false none)
+    | .cons 0x30 [.prim 0x01 [0xFF]] => some (.basic true none)
+    | .cons 0x30 [.prim 0x02 [p]] => some (.basic false (some p))
+    | .cons 0x30 [.prim 0x01 [0xFF], .prim 0x02 [p]] => some (.basic true (some p))
+    | _ => none
+  else if oid = OID_KEY_USAGE then (parseKeyUsage d).map .keyUsage
+  else if oid = OID_EXT_KEY_USAGE then
+    match d with
+    | .cons 0x30 l => (mapO parseEku l).map .extKeyUsage
+    | _ => none
+  else if oid = OID_SUBJ_KEY_IDENTIFIER then
+    match d with
+    | .prim 0x04 b => some (.subjKeyId b)
+    | _ => none
+  else if oid = OID_AUTH_KEY_ID then
+    match d with
+    | .cons 0x30 [.prim 0x80 b] => some (.authKeyId b)
+    | _ => none
+  else none
+
+def parseExtValue (oid value : List Nat) : Option XExt := (parseDer value).bind (extOfDer oid)
 
 def knownExtOid (oid : List Nat) : Bool :=
   oid == OID_BASIC_CONSTRAINTS || oid == OID_KEY_USAGE || oid == OID_EXT_KEY_USAGE ||
@@ -590,7 +599,7 @@ def certFieldsOfDer : Der → Option View
     let subject ← parseDn subject
     let nb ← parseTime nb
     let na ← parseTime na
-    let exts ← exts.mapM parseExt
+    let exts ← mapO parseExt exts
     pure { serial := serial, signAlgo := 1, issuer := issuer, notBefore := nb
            notAfter := if na = DOESNT_EXPIRE then 0 else na
            subject := subject, pubkeyAlgo := 1, ecCurveId := 1, pubkey := pk, exts := exts }
@@ -607,11 +616,17 @@ def XExt.critical : XExt → Bool
   | .basic _ _ | .keyUsage _ | .extKeyUsage _ => true
   | _ => false
 
+/-- a spliced `future-extensions` blob is seen as the extension it contains (its criticality is the blob's) -/
+def XExt.view : XExt → Option ExtView
+  | .future b => (parseDer b).bind parseExt
+  | e => some { critical := e.critical, ext := e }
+
 def Fields.view (f : Fields) : Option View := do
-  let issuer ← f.issuer.mapM Attr.view
-  let subject ← f.subject.mapM Attr.view
+  let issuer ← mapO Attr.view f.issuer
+  let subject ← mapO Attr.view f.subject
+  let exts ← mapO XExt.view f.exts
   pure { serial := f.serial, signAlgo := f.signAlgo, issuer := issuer, notBefore := f.notBefore
          notAfter := f.notAfter, subject := subject, pubkeyAlgo := f.pubkeyAlgo, ecCurveId := f.ecCurveId
-         pubkey := f.pubkey, exts := f.exts.map fun e => { critical := e.critical, ext := e } }
+         pubkey := f.pubkey, exts := exts }
 
 end Codec.CertAsn1
